@@ -10,6 +10,13 @@ use vh_exec::flat::*;
 use vh_exec::*;
 
 fn exec_line(line: &str) -> String {
+    if line.starts_with("S ") {
+        // a case of the run-sequence family (c25s): not ours
+        return format!(
+            "trivial-skip\t{}\t{{| c_graph := mk_graph nil nil; c_ops := nil; c_consts := nil; c_ins := nil; c_outs := nil; c_plan := Some nil; c_plan_noip := Some nil; c_runs := nil |}}",
+            line
+        );
+    }
     let c = parse_case(line);
     let seed = line.bytes().fold(7u64, |h, b| h.wrapping_mul(131).wrapping_add(b as u64));
     let (tag, term) = exec_case_noise(&c, Some(seed));
@@ -17,7 +24,7 @@ fn exec_line(line: &str) -> String {
 }
 
 fn timeout_line(line: &str) -> String {
-    let c = parse_case(line);
+    let c = parse_case(if line.starts_with("S ") { "v|0=1|0|" } else { line });
     format!("timeout\t{}\t{}", line, timeout_term(&c))
 }
 
